@@ -329,7 +329,11 @@ impl LuaIndexExpr {
                             }
                         }
 
-                        return Some(LuaIndexKey::Expr(LuaExpr::cast(node).unwrap()));
+                        match LuaExpr::cast(node) {
+                            Some(expr) => return Some(LuaIndexKey::Expr(expr)),
+                            // a comment node between `[` and the key is not the key
+                            None => continue,
+                        }
                     }
                     _ => {
                         if let Some(token) = child.as_token()
